@@ -53,6 +53,9 @@ def gen_cases(tier, seed):
             for variant in range(3):
                 j += 1
                 yield {'family': obs, 'idx': 10 ** 6 + j, 'seed': seed, 'edge': 'raw_csv_load', 'variant': variant}
+        for k_ in range(6):
+            j += 1
+            yield {'family': 'observer_rerun', 'idx': 10 ** 6 + j, 'seed': seed}
         if rep == 0:
             # every observer once in a process whose locale is not UTF-8, over non-ASCII text
             j += 1
@@ -195,9 +198,72 @@ def run_c_locale(case):
                 cov={'observer_x_discarder_x_pos': cov}, sample={'c_locale': sorted(out)})
 
 
+def run_observer_rerun(case):
+    """ONE Flow object (re-iterable source) with an observer, run three times; and the observer step re-used in a second
+    flow: the observer does its job in every run."""
+    import io
+    d = lab.df()
+    rng = boot.rng(case['seed'], 'C05', 'rerun', case['idx'])
+    counters = {'downstream_compared': 0, 'observer_content_compared': 0, 'finalizer_calls_checked': 0}
+    viol = []
+    n = rng.choice([1, 5, 30])
+    rows = [{'id': i, 's': 'v%d' % i} for i in range(n)]
+    fired = []
+    printed = []
+
+    class Keep(io.StringIO):
+        def close(self):
+            pass
+    sinks = [Keep()]
+    obs_kind = ['finalizer', 'finalizer_stats', 'printer', 'stream', 'dump_to_path', 'update_stats'][case['idx'] % 6]
+
+    def cb():
+        fired.append(1)
+
+    def cb_stats(stats):
+        fired.append(dict(stats))
+    obs = {'finalizer': lambda: d.finalizer(cb), 'finalizer_stats': lambda: d.finalizer(cb_stats),
+           'printer': lambda: d.printer(header_print=lambda *a, **k: printed.append(1), table_print=lambda *a, **k: None),
+           'stream': lambda: d.stream(sinks[0]), 'dump_to_path': lambda: d.dump_to_path('rerun_out'),
+           'update_stats': lambda: d.update_stats({'marker': 7})}[obs_kind]()
+    flow = d.Flow([dict(r) for r in rows], obs, d.add_field('z', 'integer', 1))
+    cfg = {'observer': obs_kind, 'rows': n}
+    for run_no in (1, 2, 3):
+        before = (len(fired), len(printed), len(sinks[0].getvalue()))
+        try:
+            with boot.quiet():
+                res, dp, stats = flow.results()
+        except Exception as e:
+            viol.append({'kind': 'observer_breaks_run', 'mech': '%s/rerun_failed' % obs_kind, 'observer': obs_kind,
+                         'msg': '%r: run %d of the same Flow object failed: %s' % (cfg, run_no, str(getattr(e, 'cause', e))[:200])})
+            break
+        counters['downstream_compared'] += 1
+        counters['observer_content_compared'] += 1
+        if [r['id'] for r in res[0]] != list(range(n)):
+            viol.append({'kind': 'downstream_rows', 'mech': '%s/rerun_rows' % obs_kind, 'observer': obs_kind,
+                         'msg': '%r: run %d delivered ids %r' % (cfg, run_no, [r['id'] for r in res[0]][:5])})
+        did = {'finalizer': len(fired) - before[0] == 1, 'finalizer_stats': len(fired) - before[0] == 1,
+               'printer': len(printed) - before[1] == 1, 'stream': len(sinks[0].getvalue()) > before[2],
+               'dump_to_path': os.path.exists('rerun_out/datapackage.json'), 'update_stats': stats.get('marker') == 7}[obs_kind]
+        if obs_kind.startswith('finalizer'):
+            counters['finalizer_calls_checked'] += 1
+        if not did:
+            viol.append({'kind': 'observer_idle_on_rerun', 'mech': '%s/idle_on_rerun' % obs_kind, 'observer': obs_kind,
+                         'msg': '%r: in run %d of the same Flow object the observer did not do its job (callback fired / '
+                         'output written)' % (cfg, run_no)})
+            break
+        if obs_kind == 'dump_to_path':
+            import shutil
+            shutil.rmtree('rerun_out', ignore_errors=True)
+    return dict(nontrivial=True, violations=viol, counters=counters,
+                cov={'observer_x_discarder_x_pos': {'%s|same_flow_three_runs|middle' % obs_kind: 1}}, sample={'config': cfg})
+
+
 def run_case(case):
     if case['family'] == 'c_locale':
         return run_c_locale(case)
+    if case['family'] == 'observer_rerun':
+        return run_observer_rerun(case)
     kind = case['family']
     rng = boot.rng(case['seed'], 'C05', case['idx'])
     d = lab.df()
